@@ -28,6 +28,9 @@ func TestDebugTrace(t *testing.T) {
 			changed = " CHANGED"
 		}
 		fmt.Printf("%4d p%-3d %-10s %-8s %-13s %-5s dry=%v %s err=%q%s\n", c.Seq, c.Pass, c.Actor, c.Source, c.Verb, c.PatchType, c.DryRun, c.Key, trunc(c.Err, 100), changed)
+		if os.Getenv("VERIF_DEBUG_SEQ") == fmt.Sprint(c.Seq) {
+			fmt.Printf("     diff: %s\n", diffSummary(c.Pre, c.Post))
+		}
 	}
 	for _, k := range r.W.Store.Keys() {
 		b, _ := json.Marshal(r.W.Store.Peek(k))
